@@ -231,6 +231,7 @@ def check(case: dict) -> dict:
     seen_wd: set = set()
     attr_verdict: dict = {}
     l_wire = None
+    oversized = False
     mp_extended = False
     at_limit = False
     empty_updates = 0
@@ -264,7 +265,16 @@ def check(case: dict) -> dict:
         if mp_u is not None:
             kinds.append('mp_unreach')
         if len(m) > msg_size:
-            flag('size:oversized:' + '+'.join(kinds or ['empty']), f'{len(m)} octets > negotiated {msg_size} ({"+".join(kinds)})')
+            oversized = True
+            # sections are filled in the order IPv4 NLRI, IPv4 withdrawn, MP_REACH, MP_UNREACH: the last one present overflowed.
+            # One lone NLRI in it = an NLRI carried over after a flush without asking whether it fits on its own;
+            # several = the budget arithmetic itself is wrong
+            last, count = 'empty', 0
+            for name, entries in (('v4', u['nlri']), ('v4-withdraw', u['withdrawn']), ('mp_reach', (mp_r or {}).get('nlri', [])), ('mp_unreach', (mp_u or {}).get('nlri', []))):
+                if entries:
+                    last, count = name, len(entries)
+            kind = 'lone-nlri-carried-over' if count == 1 else 'budget'
+            flag(f'size:oversized:{kind}:{last}', f'{len(m)} octets > negotiated {msg_size} ({"+".join(kinds)}; {count} NLRI in the {last} section)')
         at_limit = at_limit or len(m) == msg_size
         if len(u['order']) != len(set(u['order'])):
             flag('attrs:duplicate-attribute', f'{u["order"]}')
@@ -329,12 +339,17 @@ def check(case: dict) -> dict:
     room = msg_size - model.UPDATE_FIXED - l_used
     fit = {k: model.single_announce_size(r, l_used) <= msg_size for k, r in exp_ann.items()}
     for k in seen_ann:
-        if not fit[k]:
+        if not fit[k] and not oversized:
             # cannot happen without an oversized message; kept as a guard on the reference arithmetic
             raise RuntimeError(f'harness: {k} was announced in messages all <= {msg_size} but the reference says it cannot fit (attrs {l_used})')
     lost_ann = [k for k in exp_ann if fit[k] and k not in seen_ann]
     lost_wd = [k for k in exp_wd if k not in seen_wd]
-    if lost_ann or lost_wd:
+    unframeable = exc is not None and type(exc).__name__ == 'error' and (innermost_repo_frame(exc) or '').endswith('message.py:_message')
+    if unframeable:
+        # a message of more than 65535 octets was assembled and could not even be framed: the oversized message in its
+        # msg_size 65535 form; whatever is lost behind it is its consequence
+        flag('size:oversized:beyond-65535', f'{exc!r} after {len(msgs)} messages, room {room} octets after attributes of {l_used}; {len(lost_ann)} announces and {len(lost_wd)} withdrawals lost behind it')
+    elif lost_ann or lost_wd:
         cause = diagnose(neg, attributes, ann, wd, include_withdraw, neg_fams, fit, room, Decoder(asn4, ap))
         how = type(exc).__name__ if exc is not None else 'silent'
         where = f' at {innermost_repo_frame(exc)}' if exc is not None else ''
@@ -457,12 +472,12 @@ def diagnose(neg, attributes, ann: list, wd: list, include_withdraw: bool, neg_f
         if complete(fitting, wd):
             return 'route-that-cannot-fit-takes-others-with-it'
     ann = fitting
-    if not ann:
-        if not complete([], wd):
-            if room <= 0:
-                return 'withdrawals-dropped-because-attributes-leave-no-room'
-            return 'withdraw-only'
-        return 'unexplained'
+    # a withdrawal needs no attribute, yet it is budgeted in the room the attributes leave
+    roomy = [(r, o) for r, o in wd if r['size'] + (0 if fam(r) == (1, 1) else 6) <= room]
+    if len(roomy) != len(wd):
+        if complete(ann, roomy):
+            return 'withdrawals-need-room-after-attributes'
+    wd = roomy
     v4a = [(r, o) for r, o in ann if fam(r) == (1, 1)]
     v4w = [(r, o) for r, o in wd if fam(r) == (1, 1)]
     mpa = [(r, o) for r, o in ann if fam(r) != (1, 1)]
